@@ -6,6 +6,7 @@
 EXTENDS ShQuote, Json, IOUtils
 
 W == INSTANCE WinArgs
+E == INSTANCE WinEnv WITH RejectNul <- TRUE, Names <- {}, Values <- {}, MaxEntries <- 0
 
 Rec == ndJsonDeserialize(IOEnv.TRACE)
 VARIABLES l
@@ -28,7 +29,12 @@ TWin ==
                  THEN V(~Ev.ok, "C20_nul_rejected")
                  ELSE V(Ev.ok /\ W!MsParse(Ev.out) = Ev.argv, "C20_parses_back_to_argv")
      IN PrintT(<<"RESULT", Ev.id, viol, {}, "-">>)
-TraceNext == TSh \/ TWin
+\* C06, Windows variant: the environment block the extracted format_env_block produced, read back
+TWinEnv ==
+  /\ l <= Len(Rec) /\ Ev.e = "winenv" /\ l' = l + 1
+  /\ LET env == [i \in 1..Len(Ev.env) |-> <<Ev.env[i][1], Ev.env[i][2]>>]
+     IN PrintT(<<"RESULT", Ev.id, E!Verdict(env, Ev.ok, Ev.block), {}, "-">>)
+TraceNext == TSh \/ TWin \/ TWinEnv
 TraceSpec == TraceInit /\ [][TraceNext]_l
 TraceAccepted ==
   LET d == TLCGet("stats").diameter IN
